@@ -197,6 +197,15 @@ func genCase(r *prng.R, mode int) []string {
 		caseFam = r.Range(1, 2)
 	}
 	var famValues []string
+	// the clock advances on every reading during a call (a third of the cases): TryToIncrement must decide the
+	// window AND the roll-over from one reading, whatever the clock does afterwards
+	ticking := r.Chance(33)
+	tickOf := func() string {
+		if !ticking {
+			return ""
+		}
+		return fmt.Sprintf(" tick=%d", prng.Pick(r, []int64{1, 1, 1, 2, 7, 1000, 500_000_000, 1_000_000_000}))
+	}
 	floaty := r.Chance(15)
 	nrem := r.Range(1, 3)
 	rs := make([]rem, nrem)
@@ -275,13 +284,22 @@ func genCase(r *prng.R, mode int) []string {
 			if r.Chance(10) {
 				hn = prng.Pick(r, []string{"X-Group", "x-group", "X-GROUP"}) // exact-match lookup: other case = absent
 			}
-			ops = append(ops, fmt.Sprintf("req id=0 t=%d h=%s&%s", t, proto.Enc(hn), proto.Enc(prng.Pick(r, famValues))))
+			ops = append(ops, fmt.Sprintf("req id=0 t=%d%s h=%s&%s", t, tickOf(), proto.Enc(hn), proto.Enc(prng.Pick(r, famValues))))
 		} else if r.Chance(8) {
 			// concurrent callers at one instant
 			l := reqLine(r, rs[i], t)
 			ops = append(ops, "burst"+strings.TrimPrefix(l, "req")+fmt.Sprintf(" n=%d par=%d", r.Range(2, 12), r.Range(2, 8)))
 		} else {
-			ops = append(ops, reqLine(r, rs[i], t))
+			l := reqLine(r, rs[i], t)
+			if tk := tickOf(); tk != "" {
+				// `req id=N t=T` + tick + rest
+				p := strings.SplitN(l, " ", 4)
+				l = strings.Join(p[:3], " ") + tk
+				if len(p) == 4 {
+					l += " " + p[3]
+				}
+			}
+			ops = append(ops, l)
 		}
 		if !noCounters && r.Chance(6) {
 			t = nextT(r, t, w, boundaryOK) // the metric scrape happens on the same (monotone) clock
@@ -411,7 +429,7 @@ func gen(r *prng.R, f proto.Flags, emit func(proto.Case)) {
 			for m := 0; m < total; m++ {
 				ops := []string{fmt.Sprintf("remedy id=0 name=r allowed=%d win=1 status=0 spill=0 renew=0", allowed)}
 				t := 1000*sec + 500_000_000
-				ops = append(ops, fmt.Sprintf("req id=0 t=%d", t))
+				ops = append(ops, fmt.Sprintf("req id=0 t=%d tick=1", t))
 				x := m
 				for i := 0; i < ln; i++ {
 					nb := (t/sec + 1) * sec
@@ -432,7 +450,7 @@ func gen(r *prng.R, f proto.Flags, emit func(proto.Case)) {
 						t += 2 * sec
 					}
 					x /= len(moves)
-					ops = append(ops, fmt.Sprintf("req id=0 t=%d", t))
+					ops = append(ops, fmt.Sprintf("req id=0 t=%d tick=1", t))
 				}
 				id++
 				emit(proto.Case{ID: fmt.Sprintf("e%d", id), Ops: ops})
